@@ -241,6 +241,9 @@ func NewConn(c net.Conn, opts ConnOpts) *Conn {
 		onDisconnect:  opts.OnDisconnect,
 	}
 
+	// Start from the protocol's defaults: what is left at zero is announced as
+	// zero, and a header table size of 0 is not what the decoder is set up for.
+	nc.current.Reset()
 	nc.current.SetMaxWindowSize(1 << 20)
 	nc.current.SetPush(false)
 
